@@ -481,6 +481,9 @@ func (r *replRunner) exec(f []string) string {
 		if !ld.up {
 			return "err notup"
 		}
+		if nf >= 1000 {
+			return r.batchRepair(ld, fl, nf-1000)
+		}
 		if ld.id == fl.id {
 			return "err norepair"
 		}
@@ -586,6 +589,68 @@ func (r *replRunner) exec(f []string) string {
 			replCmdStr(rc.CommandID), rc.First, rc.Last, rc.HW)
 	}
 	return "bad-op"
+}
+
+// batchRepair: the leader's proposals [nf, LEO] followed by an exact replay of the proposal ending at
+// nf-1, sent to the follower as ONE exchange batch (one ReplicaStore.Sync call with several mutations
+// of one channel, the last of them an out-of-order replay).
+func (r *replRunner) batchRepair(ld, fl *replNode, nf uint64) string {
+	if ld.id == fl.id {
+		return "err norepair"
+	}
+	loaded, err := ld.store.Load(context.Background(), replication.LoadBatch{Items: []replication.LoadRequest{{ChannelKey: replKey, ChannelID: replChannelID}}})
+	if err != nil || len(loaded.Items) != 1 || loaded.Items[0].Err != nil {
+		return "err norepair"
+	}
+	state := loaded.Items[0].State
+	var all []replication.RecoveryProposal
+	if state.LEO > 0 {
+		pages := ld.store.Fetch(context.Background(), []replication.FetchRange{{
+			ChannelKey: replKey, ChannelID: replChannelID, Expected: state, From: 1, Through: state.LEO, MaxBytes: 64 << 10,
+		}})
+		if len(pages) != 1 || pages[0].Err != nil {
+			return "err norepair"
+		}
+		all = pages[0].Proposals
+	}
+	var tail, replay []replication.RecoveryProposal
+	for _, p := range all {
+		if p.Manifest.LastOffset >= nf {
+			tail = append(tail, p)
+		} else if p.Manifest.LastOffset+1 == nf && len(replay) == 0 {
+			replay = append(replay, p)
+		}
+	}
+	items := append(tail, replay...)
+	if nf == 0 || len(tail) == 0 || tail[0].Manifest.BaseOffset+1 != nf || len(items) > 4 || !fl.up {
+		return "err norepair"
+	}
+	batch := replication.ExchangeBatch{Version: replication.ExchangeVersion, Priority: replication.ExchangePriorityForeground}
+	reqs := make([]replication.ReplicateRequest, len(items))
+	for i, p := range items {
+		committed := state.Committed
+		if p.Manifest.LastOffset < committed {
+			committed = p.Manifest.LastOffset
+		}
+		reqs[i] = replication.ReplicateRequest{
+			ChannelKey: replKey, ChannelID: replChannelID, Leader: ld.id, Follower: fl.id,
+			Manifest: p.Manifest, Records: p.Records, Committed: committed, ServerAllocatedMessageIDs: r.unkeyed,
+		}
+		batch.Items = append(batch.Items, replication.ExchangeItem{RequestID: uint64(i + 1), Kind: replication.ExchangeReplicate, Replicate: &reqs[i]})
+	}
+	res, err := fl.server.Handle(context.Background(), ld.id, batch)
+	if err != nil || len(res.Items) != len(items) {
+		return "err " + replication.VerifErrClass(err)
+	}
+	out := make([]string, len(items))
+	for i, it := range res.Items {
+		out[i] = map[replication.ReplicateStatus]string{
+			replication.ReplicateDurable: "D", replication.ReplicateAlreadyDurable: "A", replication.ReplicateNeedFrom: "N",
+			replication.ReplicateStaleFence: "S", replication.ReplicateConflict: "C", replication.ReplicateBackpressured: "B",
+			replication.ReplicateOutcomeUnknown: "U",
+		}[it.Replicate.Status]
+	}
+	return "ok " + strings.Join(out, ",")
 }
 
 // ----------------------------------------------------------------- dump ---
@@ -726,6 +791,7 @@ type replGenParams struct {
 	pMdb          int // % of cases whose voters are real MessageDB stores
 	pSameTerm     int // % of cases starting with the same-term divergent-tail template
 	pUnkeyed      int // % of cases on MessageDB with server-allocated, unkeyed records (cap 1)
+	pStaleBatch   int // % of cases: the batched-replay + deposed-leader template on that store kind
 }
 
 type replAuth struct{ e, t, f uint64 }
@@ -1028,8 +1094,27 @@ func (s *replGenState) repair() {
 	if !g.R.Chance(35) {
 		nf = g.R.Range(0, minInt(s.records, 12)+1)
 	}
+	if g.R.Chance(35) && nf > 0 {
+		g.Count("repair:batched")
+		g.Op("repair", "%d %d %d", l, f, 1000+nf)
+		return
+	}
 	g.Count("repair")
 	g.Op("repair", "%d %d %d", l, f, nf)
+}
+
+func (s *replGenState) staleBatch() {
+	g := s.g
+	k := g.R.Range(1, 2)
+	g.Op("install", "1 1 1 1 0 2 111 DDD")
+	g.Op("commit", "1 1 1 1 1 %d 0 DDD", k)
+	g.Op("commit", "1 1 1 1 9 1 0 XXX")
+	g.Op("install", "2 1 2 1 0 2 111 DDX")
+	g.Op("commit", "2 1 2 1 3 1 0 DDX")
+	g.Op("repair", "2 3 %d", 1000+k+1)
+	g.Op("commit", "1 1 1 1 9 1 0 XXD")
+	g.Op("commit", "2 1 2 1 4 1 0 DDD")
+	g.Op("repair", "2 3 1")
 }
 
 func (s *replGenState) commit() {
@@ -1128,6 +1213,15 @@ func minInt(a, b int) int {
 func replGenCase(g *Gen, p replGenParams) {
 	g.Case()
 	s := &replGenState{g: g, p: p, owner: map[replAuth]int{}}
+	if g.R.Chance(p.pStaleBatch) {
+		// directed family (MessageDB, server-allocated unkeyed records): an old leader keeps a sealed but
+		// unwritten proposal at base 2; the new leader's barrier and next entry reach voter 3 only as ONE
+		// batch that ends in an exact replay of the older proposal; then the old leader's proposal arrives
+		g.Count("case:batched-replay-then-deposed-proposal")
+		g.Op("cfg", "3 2 2 %d 1 1", g.R.Intn(2))
+		s.staleBatch()
+		return
+	}
 	switch g.R.Pick(2, 12, 1, 4, 1) {
 	case 0:
 		s.n = 1
